@@ -57,7 +57,7 @@ CHECKS = {
         "thorough": [{"test": "TestC01", "checks": 12000, "shards": 15},
                      {"test": "TestC01", "checks": 3000, "shards": 1, "env": {"VERIF_LEVEL": "1"}}],
     },
-    "C02": _world("TestC02", _R["C02"], 700, 40000),
+    "C02": _world("TestC02", _R["C02"], 700, 80000),
     "C03": _world("TestC03", _R["C03"], 250, 5000, extra_assume=["ics23/go v0.11.0 verifier (IavlSpec)"]),
     "C04": _world("TestC04", _R["C04"], 300, 4000, extra_assume=["ics23/go v0.11.0 verifier (IavlSpec)"]),
     "C07": _world("TestC07", _R["C07"], 600, 16000),
@@ -78,7 +78,7 @@ CHECKS = {
         "thorough": [{"test": "TestC06Plan", "checks": 3000, "shards": 10}, {"test": "TestC06Stress", "checks": 12000, "shards": 4, "race": True, "env": {"GORACE": "halt_on_error=0"}},
                      {"test": "TestC06Stress", "checks": 6000, "shards": 2, "race": True, "env": {"GORACE": "halt_on_error=0", "VERIF_GOMAXPROCS": "2"}}],
     },
-    "C08": _world("TestC08", _R["C08"], 500, 30000),
+    "C08": _world("TestC08", _R["C08"], 500, 60000),
     "C09": _world("TestC09", _R["C09"], 300, 8000),
     "C10": {
         "level": "exploration",
@@ -110,8 +110,8 @@ CHECKS = {
         "rule": "a generated prefix history (6-28 steps), then ONE public call with an error result: reads on a committed version {Get, Has, GetWithIndex, GetByIndex, Iterate, Iterator loop+Error+Close, GetProof (membership and non-membership), GetMembershipProof, GetVersionedProof, GetVersioned, GetImmutable+Hash, Export loop, LoadVersion, TraverseStateChanges, VersionExists/AvailableVersions/GetLatestVersion}, reads on the working tree {Get, Iterate, Iterator}, writes {Set+SaveVersion, Remove+SaveVersion, SaveVersion without changes, DeleteVersionsTo, DeleteVersionsFrom, LoadVersionForOverwriting, SaveChangeSet (set / delete), Import+Commit}, on a cold handle (cache 0/2/1000, fast index on/off). A fault-free run on a cloned image records the result R and the number n of storage calls; then EVERY position k in [1,n] is faulted once (Get, Has, Iterator/ReverseIterator creation, iterator step, batch Set/Delete/Write) on a fresh clone, plus 0-3 drawn multi-fault sets; TestC17BigImport fails each physical batch write of a >10000-node import (background flushes and the final write) in turn, under a watchdog (an import that never returns does not surface the fault either). Oracle: an error, or exactly R (fault on an irrelevant path); never another value, an absence, a shorter iteration/export, a panic or a process abort; a write call must not report success when a storage write failed; the store left behind by a failed single-batch write reopens with every listed version readable and unchanged. non-trivial = n >= 2 and at least one position turned the result into an error; exhaustive over positions within each case",
         "assumptions": _ASSUME + ["calls without an error result (IterateRange, IterateRangeInclusive) are outside the property", "write calls use flush threshold 100000 (one physical write); a sixth of them 150/300 where only the error-vs-success oracle applies (F7 family)"],
         "coverage_extra": {"exhaustive_within_each_history": True},
-        "quick": [{"test": "TestC17", "checks": 250, "shards": 8}, {"test": "TestC17BigImport", "checks": 2, "shards": 2}],
-        "thorough": [{"test": "TestC17", "checks": 8000, "shards": 14}, {"test": "TestC17BigImport", "checks": 25, "shards": 2}],
+        "quick": [{"test": "TestC17", "checks": 600, "shards": 8}, {"test": "TestC17BigImport", "checks": 2, "shards": 2}],
+        "thorough": [{"test": "TestC17", "checks": 60000, "shards": 14}, {"test": "TestC17BigImport", "checks": 40, "shards": 2}],
     },
     "C18": {
         "level": "exploration",
@@ -137,7 +137,7 @@ CHECKS = {
                      {"kind": "fuzz", "test": "FuzzRootReader", "fuzztime": "120s"}],
     },
     "C14": _world("TestC14", _R["C14"], 500, 16000),
-    "C15": _world("TestC15", _R["C15"], 600, 30000),
+    "C15": _world("TestC15", _R["C15"], 600, 60000),
     "C19": {
         "level": "exploration",
         "module": "harness_v2",
